@@ -32,12 +32,20 @@ namespace {
         OP_SUBMIT = 5,    // a = count, b = hint (-1 none)
         OP_YIELD = 6,
         OP_REFUSED = 7,   // operations that must be refused
+        OP_RACE_RESUME = 8,    // resume a processing unit without waiting for other control operations
     };
 
     pika::threads::detail::thread_pool_base* victim = nullptr;
     int g_nv = 0;
     bool g_elastic = true;
-    std::vector<int> suspended;    // model: 1 between suspend-return and resume-invocation
+    // model per processing unit: 0 = running, 1 = suspended (between the return of a suspend that no resume
+    // overlapped and the invocation of a resume), 2 = unknown (a resume overlapped a suspend of the same
+    // unit: either order is a legal outcome)
+    std::vector<int> suspended;
+    std::vector<int> sepoch, repoch, susp_inflight, race_inflight;    // per unit: suspend / racing-resume events and calls in flight
+    int g_race_active = 0;
+    int g_susp_in_flight_pu = -1;
+    bool g_pool_op_busy = false;
     bool g_pool_suspended = false;
     bool g_control_busy = false;
     int g_submitted = 0, g_entered = 0, g_finished = 0;
@@ -54,7 +62,7 @@ namespace {
             {
                 std::size_t w = pika::get_local_worker_thread_num();
                 VH_CHECK(w < (std::size_t) g_nv, "C19.worker_range", "worker number %zu", w);
-                VH_CHECK(!suspended[w] && !g_pool_suspended, "C19.ran_on_suspended_worker",
+                VH_CHECK(suspended[w] != 1 && !g_pool_suspended, "C19.ran_on_suspended_worker",
                     "task %d runs a phase on worker %zu of the victim pool while that worker is suspended", tok, w);
             }
             if (y < yields) pika::this_thread::yield();
@@ -117,8 +125,23 @@ namespace {
                 ControlScope cs(os);
                 int pu = ((a % g_nv) + g_nv) % g_nv;
                 if (g_pool_suspended || suspended[(size_t) pu] || active_pus() <= 1) break;
+                size_t u = (size_t) pu;
+                int r0 = repoch[u];
+                bool overlapped = race_inflight[u] > 0;
+                sepoch[u]++;
+                susp_inflight[u]++;
+                g_susp_in_flight_pu = pu;
                 victim->suspend_processing_unit_direct((std::size_t) pu);
-                suspended[(size_t) pu] = 1;
+                g_susp_in_flight_pu = -1;
+                susp_inflight[u]--;
+                sepoch[u]++;
+                if (overlapped || race_inflight[u] > 0 || repoch[u] != r0)
+                {
+                    suspended[u] = 2;    // a resume overlapped this suspend: either order is legal
+                    probe("suspend_overlapped_by_resume");
+                }
+                else
+                    suspended[u] = 1;
                 ev(OP_SUSPEND_PU, pu);
                 probe("suspend_pu");
                 break;
@@ -138,9 +161,11 @@ namespace {
             case OP_SUSPEND_POOL:
             {
                 ControlScope cs(os);
-                if (g_pool_suspended || active_pus() != g_nv) break;
+                if (g_pool_suspended || active_pus() != g_nv || g_race_active) break;
                 // suspend_direct waits until the pool is idle
+                g_pool_op_busy = true;
                 victim->suspend_direct();
+                g_pool_op_busy = false;
                 g_pool_suspended = true;
                 for (auto& s : suspended) s = 1;
                 probe("suspend_pool");
@@ -150,10 +175,56 @@ namespace {
             {
                 ControlScope cs(os);
                 if (!g_pool_suspended) break;
+                g_pool_op_busy = true;
                 g_pool_suspended = false;
                 for (auto& s : suspended) s = 0;
                 victim->resume_direct();
+                g_pool_op_busy = false;
                 probe("resume_pool");
+                break;
+            }
+            case OP_RACE_RESUME:
+            {
+                // not serialised with the other parties' suspend/resume calls on processing units
+                if (!g_elastic || g_pool_suspended || g_pool_op_busy) break;
+                int pu = ((a % g_nv) + g_nv) % g_nv;
+                // half of them aim at a suspend in flight: wait (bounded) for one, then resume that unit
+                if (b >= 0)
+                {
+                    for (int w = 0; w < 60 && g_susp_in_flight_pu < 0; w++)
+                    {
+                        if (os)
+                            std::this_thread::yield();
+                        else
+                            pika::this_thread::yield();
+                    }
+                    if (g_susp_in_flight_pu >= 0)
+                    {
+                        pu = g_susp_in_flight_pu;
+                        probe("race_resume_aimed_at_suspend_in_flight");
+                    }
+                    if (g_pool_suspended || g_pool_op_busy) break;
+                }
+                size_t u = (size_t) pu;
+                g_race_active++;
+                int s0 = sepoch[u];
+                bool overlapped = susp_inflight[u] > 0;
+                repoch[u]++;
+                race_inflight[u]++;
+                if (suspended[u] == 1) suspended[u] = 2;    // tasks may run on it from now on
+                victim->resume_processing_unit_direct((std::size_t) pu);
+                race_inflight[u]--;
+                repoch[u]++;
+                if (!overlapped && sepoch[u] == s0)
+                    suspended[u] = 0;    // no suspend overlapped: the unit is running now
+                else
+                {
+                    // a suspend still in flight sets the state itself when it returns
+                    if (susp_inflight[u] == 0) suspended[u] = 2;
+                    probe("resume_overlapped_suspend");
+                }
+                g_race_active--;
+                probe("race_resume");
                 break;
             }
             case OP_SUBMIT:
@@ -227,10 +298,11 @@ namespace {
                 Op op;
                 op.v[0] = (int64_t) r.below((uint64_t) nparties);
                 uint64_t x = r.below(100);
-                op.v[1] = x < 22 ? OP_SUSPEND_PU : x < 40 ? OP_RESUME_PU : x < 46 ? OP_SUSPEND_POOL : x < 54 ? OP_RESUME_POOL :
-                    x < 84                                                                                       ? OP_SUBMIT :
-                    x < 92                                                                                       ? OP_YIELD :
-                                                                                                                   OP_REFUSED;
+                op.v[1] = x < 22 ? OP_SUSPEND_PU : x < 36 ? OP_RESUME_PU : x < 42 ? OP_SUSPEND_POOL : x < 50 ? OP_RESUME_POOL :
+                    x < 78                                                                                       ? OP_SUBMIT :
+                    x < 84                                                                                       ? OP_YIELD :
+                    x < 92                                                                                       ? OP_REFUSED :
+                                                                                                                   OP_RACE_RESUME;
                 op.v[2] = (int64_t) r.below(8);
                 op.v[3] = r.chance(1, 2) ? (int64_t) r.below(8) : -1;
                 op.v[4] = (int64_t) r.below(4);
@@ -254,6 +326,10 @@ namespace {
         pk::start_with_pools(ctx, {pk::PoolSpec{"victim", vpol, g_nv, mode}});
         victim = &pika::resource::get_thread_pool("victim");
         suspended.assign((size_t) g_nv, 0);
+        sepoch.assign((size_t) g_nv, 0);
+        repoch.assign((size_t) g_nv, 0);
+        susp_inflight.assign((size_t) g_nv, 0);
+        race_inflight.assign((size_t) g_nv, 0);
         entries.reserve(4096);
         static Parties P;
         std::vector<int> kinds;
